@@ -208,7 +208,7 @@ def run(chk, facts):
     for c in sorted(set(callers)):
         ok = c in reviewed["tuple_literal_callers"]
         chk.ob("R-C10-2", f"tuple_literal:{c}", ok, f"{c} switches bare-tuple printing on" + ("" if ok else " - unreviewed: a bare tuple may end up inside an operator"))
-    chk.floor("R-C10-2", len(sites), 3, "construction sites of bracket-only forms")
+    chk.floor("R-C10-2", len(sites), 2, "construction sites of bracket-only forms")
 
     # 4. R-C10-3: desugarings construct nodes; no generate::convert function pre-renders expression text into an Id
     n_des = 0
